@@ -84,7 +84,7 @@ def gen_case(rng, ctx):
         cls, ds = gen.dataset(rng, classes="D3 D3 D4 D7", n=rng.choice([4, 4, 5, 5, 6]), mmax=6)
         ds = libx.normalise_raw(ds)
         return {"ds": ds, "scheme": gen.scheme_unranked_free(rng), "dcls": cls, "scls": "unranked-free"}
-    cls, ds = gen.dataset(rng, classes="D11 D11 D11 D9 D9 D2 D2 D2 D3 D4 D7 D10 D8 D15 D15 D20", nmax=nmax, mmax=6)
+    cls, ds = gen.dataset(rng, classes="D11 D11 D11 D9 D9 D2 D2 D2 D3 D4 D7 D10 D8 D15 D15 D20 D14 D14", nmax=nmax, mmax=6)
     ds = libx.normalise_raw(ds)
     scls, sch = gen.scheme(rng, "S1 S2 S3 S3 S3 S6 S9 S11 S11 S11 S16 S16")
     return {"ds": ds, "scheme": sch, "dcls": cls, "scls": scls}
